@@ -139,6 +139,23 @@ def overlap_refused():
     return fn
 
 
+def overlap_refused_k3():
+    """three variants given in ANY order (coordinates independent): refused iff some pair overlaps"""
+
+    def fn(v1s, v1l, v2s, v2l, v3s, v3l):
+        iv = [(v1s, v1s + v1l), (v2s, v2s + v2l), (v3s, v3s + v3l)]
+        some = OR(*[AND(iv[i][0] < iv[j][1], iv[j][0] < iv[i][1]) for i in range(3) for j in range(i + 1, 3)])
+        try:
+            c = VariantIntervalCollection([_variant(s, e, 1, guid=61 + k) for k, (s, e) in enumerate(iv)], guid=60)
+        except LocationOverlapException:
+            return some
+        # accepted: no pair overlaps, and the collection holds the variants sorted by start
+        st = [v.start for v in c.variant_intervals]
+        return AND(NOT(some), st[0] <= st[1], st[1] <= st[2])
+
+    return fn
+
+
 # ------------------------------------------------------------------ sequence legs (realised)
 REF = "ACGTTGCAAGCTTAGGCTAACGTC"  # 24 nt
 
@@ -296,6 +313,11 @@ def obligations(tier):
                    lambda v1s, v1l, v2s, v2l: v1s >= 0 and v2s >= 0 and v1l >= 1 and v2l >= 1, budget=200, cost=10,
                    desc="a collection refuses overlapping variants and accepts disjoint ones", bounds="unbounded symbolic coordinates",
                    examples=[dict(v1s=3, v1l=4, v2s=5, v2l=2), dict(v1s=3, v1l=2, v2s=5, v2l=2)]))
+    out.append(Obl("overlapping_variants_refused_k3", overlap_refused_k3(), dict(v1s=int, v1l=int, v2s=int, v2l=int, v3s=int, v3l=int),
+                   lambda v1s, v1l, v2s, v2l, v3s, v3l: v1s >= 0 and v2s >= 0 and v3s >= 0 and v1l >= 1 and v2l >= 1 and v3l >= 1, budget=400, cost=30,
+                   desc="a collection of three variants given in any order is refused exactly when some pair overlaps; accepted collections hold them sorted",
+                   bounds="unbounded symbolic coordinates, 3 variants, every input order",
+                   examples=[dict(v1s=10, v1l=3, v2s=12, v2l=1, v3s=20, v3l=1), dict(v1s=10, v1l=3, v2s=20, v2l=1, v3s=14, v3l=1)]))
     for nv in (1, 2):
         for kind in ("location", "feature", "transcript", "cds"):
             for chunked in ((False,) if quick and kind != "location" else (False, True)):
